@@ -1,6 +1,15 @@
 //! C17 — the expected-kinds phrase depends only on the set of kinds and covers it exactly.
 use crate::{report, shard_of, Finding};
-use deserr::errors::json::value_kinds_description_json;
+use deserr::errors::json::value_kinds_description_json as real_value_kinds_description_json;
+
+/// The function under test, with a panic turned into an output that cannot be a valid phrase (so that it is
+/// reported as a violation with its input instead of taking the harness thread down).
+fn value_kinds_description_json(kinds: &[deserr::ValueKind]) -> String {
+    match monitor::run::quiet_catch(|| real_value_kinds_description_json(kinds)) {
+        Ok(s) => s,
+        Err(m) => format!("<the function panicked: {m}>"),
+    }
+}
 use deserr::ValueKind;
 use serde_json::{json, Value as J};
 use std::collections::BTreeSet;
